@@ -10,6 +10,8 @@ import Olla.Model.Glob
 import Olla.Model.Registry
 import Olla.Spec.C10
 
+set_option linter.unusedSimpArgs false
+
 namespace Olla.Props.C10
 open Olla.Model Olla.Model.Registry Olla.Spec.C10
 
@@ -615,6 +617,50 @@ theorem base_view_ok {b : Base} {r : Ref} (h : BInv b r) (us : List Url) (ns : L
             simpa [listed, hr] using hn
       exact hperm.length_eq
 
+def Op.endpoint : Op → Option Url
+  | .reg e _ => some e
+  | .reg1 e _ => some e
+  | .remove e => some e
+  | _ => none
+
+private theorem ref_untouched (ops : List Op) (r : Ref) (e : Url) (h : ∀ op ∈ ops, Op.endpoint op ≠ some e) :
+    Ref.run r ops e = r e := by
+  induction ops generalizing r with
+  | nil => rfl
+  | cons op ops ih =>
+    simp only [Ref.run, List.foldl_cons]
+    have := ih (r.step op) (fun o ho => h o (List.mem_cons_of_mem _ ho))
+    simp only [Ref.run] at this
+    rw [this]
+    have hop := h op List.mem_cons_self
+    unfold Ref.step
+    split
+    · rfl
+    · cases op with
+      | failed => rfl
+      | run i => rfl
+      | reg x ms =>
+        have : e ≠ x := fun hx => hop (by simp [Op.endpoint, hx])
+        simp [Ref.set, this]
+      | reg1 x m =>
+        have : e ≠ x := fun hx => hop (by simp [Op.endpoint, hx])
+        simp [Ref.set, this]
+      | remove x =>
+        have : e ≠ x := fun hx => hop (by simp [Op.endpoint, hx])
+        simp [Ref.set, this]
+
+/-- **Per-endpoint listing, model→endpoints lookup and statistics equal the reference after ANY history**
+    (stated on what the queries answer): for every operation sequence, every duplicate-free universe `us` of
+    endpoints containing those the history mentions, and every set of names asked about. Pinned tree: for
+    histories without a rejected listing; with `fixes/C10-validate-before-mutating.patch` for all. -/
+theorem base_views_refine_ref (vs : Variants) (ops : List Op)
+    (hv : vs.validateFirst = .fixed ∨ ∀ op ∈ ops, ¬ (∃ e ms, op = .reg e ms ∧ op.rejected = true))
+    (us : List Url) (ns : List String) (hnd : us.Nodup) (hus : ∀ op ∈ ops, ∀ e, Op.endpoint op = some e → e ∈ us) :
+    baseOk us ns (Ref.run Ref.empty ops) (viewOfBase (baseRun vs Base.empty ops)) = true := by
+  refine base_view_ok (base_refines_ref vs ops hv) us ns hnd (fun e he => ?_)
+  rw [ref_untouched ops Ref.empty e (fun op hop heq => he (hus op hop e heq))]
+  rfl
+
 /-- **A rejected or failed update leaves the previous attribution intact** (base registry), once listings
     are validated before anything is touched (fixes/C10-validate-before-mutating.patch). -/
 theorem rejected_is_noop (vs : Variants) (hv : vs.validateFirst = .fixed) (b : Base) (op : Op) (hr : op.rejected = true) :
@@ -697,10 +743,11 @@ private theorem toLower_not_upper (c : Char) : ¬ (c.toLower.val ≥ 'A'.val ∧
 
 private theorem toLower_idem (c : Char) : c.toLower.toLower = c.toLower := by
   have h := toLower_not_upper c
-  conv => lhs; unfold Char.toLower
+  generalize c.toLower = d at h ⊢
+  unfold Char.toLower
   rw [dif_neg h]
 
-/-- lower-casing is idempotent: **matching is case-insensitive in both arguments** (below) -/
+/-- lower-casing is idempotent -/
 private theorem lower_lower (s : Str) : lower (lower s) = lower s := by
   simp [lower, List.map_map, Function.comp_def, toLower_idem]
 
@@ -729,14 +776,6 @@ private theorem containsSub_dstar_lower (p : Str) : containsSub (lower p) ['*', 
     simp only [lower, List.map_cons] at h1 ih ⊢
     simp only [containsSub, h1, ih]
 
-private theorem containsSub_of_prefix (l sub : Str) (h : sub.isPrefixOf l = true) : containsSub l sub = true := by
-  cases l with
-  | nil =>
-    cases sub with
-    | nil => rfl
-    | cons a as => simp [List.isPrefixOf] at h
-  | cons c cs => simp [containsSub, h]
-
 private theorem containsSub_append_left (x l sub : Str) (h : containsSub l sub = true) : containsSub (x ++ l) sub = true := by
   induction x with
   | nil => exact h
@@ -747,6 +786,27 @@ private theorem dropWhileStar_cons_ne (c : Char) (t : Str) (h : c ≠ '*') : dro
   split
   · rename_i heq; cases heq; exact absurd rfl h
   · rfl
+
+private theorem exists_snoc {α} (l : List α) (h : l ≠ []) : ∃ m z, l = m ++ [z] := by
+  induction l with
+  | nil => exact absurd rfl h
+  | cons a t ih =>
+    cases t with
+    | nil => exact ⟨[], a, rfl⟩
+    | cons b u =>
+      obtain ⟨m, z, hm⟩ := ih (by simp)
+      exact ⟨a :: m, z, by rw [hm]; rfl⟩
+
+/-- `strings.Trim(p, "*")` of `*m*` is `m` when `m` neither starts nor ends with a star -/
+private theorem trimStars_mid (m : Str) (c z : Char) (u : Str) (hm : m = c :: u) (hc : c ≠ '*')
+    (w : Str) (hm2 : m = w ++ [z]) (hz : z ≠ '*') : trimStars ('*' :: (m ++ ['*'])) = m := by
+  unfold trimStars
+  have h1 : dropWhileStar ('*' :: (m ++ ['*'])) = m ++ ['*'] := by
+    rw [dropWhileStar, hm]; exact dropWhileStar_cons_ne c _ hc
+  rw [h1]
+  have h2 : (m ++ ['*']).reverse = '*' :: z :: w.reverse := by rw [hm2]; simp
+  rw [h2, dropWhileStar, dropWhileStar_cons_ne z _ hz, hm2]
+  simp
 
 /-- **Glob semantics**: for every pattern the validator accepts, `MatchesGlob` is the documented meaning
     (`*` all, `*t*` contains, `*t` ends with, `t*` starts with, otherwise equal), ignoring case. -/
@@ -761,81 +821,795 @@ theorem glob_spec (s pat : Str) (hv : validPattern pat = true) : matchesGlob s p
   simp only
   generalize lower pat = q at hnd ⊢
   generalize lower s = t
-  match q, hnd with
-  | [], _ => simp [star, hasPrefix, hasSuffix]
-  | ['*'], _ => simp [star]
-  | '*' :: c :: r, hnd =>
-    have hne : ('*' :: c :: r == star) = false := by simp [star]
-    have hct : ('*' :: c :: r).contains '*' = true := by simp
-    have hpre : hasPrefix ('*' :: c :: r) star = true := by simp [hasPrefix, star, List.isPrefixOf]
-    simp only [hne, hct, hpre, Bool.false_eq_true, if_false, if_true, Bool.true_and]
-    -- c is not a star (no double star)
-    have hc : c ≠ '*' := by
-      intro hcs; subst hcs
-      simp [containsSub, List.isPrefixOf] at hnd
-    cases hrev : (c :: r).reverse with
-    | nil => simp at hrev
-    | cons z mid =>
-      have hcr : c :: r = mid.reverse ++ [z] := by
-        have := congrArg List.reverse hrev
-        simpa using this
-      by_cases hz : z = '*'
-      · subst hz
-        have hsuf : hasSuffix ('*' :: c :: r) star = true := by
-          simp only [hasSuffix, star, hcr]
-          rw [show '*' :: (mid.reverse ++ ['*']) = ('*' :: mid.reverse) ++ ['*'] from rfl]
-          exact List.isSuffixOf_iff_suffix.mpr ⟨_, rfl⟩
-        simp only [hsuf, if_true]
-        -- trimStars strips exactly the two outer stars
-        have hmid : mid.reverse ≠ [] := by
-          intro hm
-          rw [hm] at hcr; simp at hcr
-          exact hc hcr.1
-        cases hm : mid with
-        | nil => simp [hm] at hmid
-        | cons d u =>
-          have hd : d ≠ '*' := by
-            intro hds; subst hds
-            rw [hcr, hm] at hnd
-            have : containsSub ('*' :: ((('*' :: u).reverse) ++ ['*'])) ['*', '*'] = true := by
-              rw [show '*' :: (('*' :: u).reverse ++ ['*']) = ('*' :: u.reverse) ++ ['*', '*'] by simp]
-              exact containsSub_append_left _ _ _ (by simp [containsSub, List.isPrefixOf])
-            rw [this] at hnd; cases hnd
-          have htrim : trimStars ('*' :: c :: r) = mid.reverse := by
-            unfold trimStars
-            have h1 : dropWhileStar ('*' :: c :: r) = c :: r := by
-              rw [dropWhileStar]; exact dropWhileStar_cons_ne c r hc
-            rw [h1, hcr, hm]
-            simp only [List.reverse_append, List.reverse_cons, List.reverse_nil, List.nil_append, List.reverse_reverse,
-              List.singleton_append]
-            rw [dropWhileStar, dropWhileStar_cons_ne d _ hd]
-            simp
-          rw [htrim, hm]
-      · have hsuf : hasSuffix ('*' :: c :: r) star = false := by
-          simp only [hasSuffix, star, hcr]
-          rw [show '*' :: (mid.reverse ++ [z]) = ('*' :: mid.reverse) ++ [z] from rfl]
-          cases hh : List.isSuffixOf ['*'] (('*' :: mid.reverse) ++ [z]) with
+  cases q with
+  | nil => simp [star, hasPrefix, hasSuffix]
+  | cons c r =>
+    cases r with
+    | nil =>
+      -- one character
+      by_cases hc : c = '*'
+      · subst hc; simp [star]
+      · have hc' : ¬ '*' = c := fun h => hc h.symm
+        have h1 : ([c] == star) = false := by simp [star, hc]
+        have h2 : ([c] : Str).contains '*' = false := by simp [hc']
+        have hcb : (c == '*') = false := by simp [hc]
+        simp [h1, h2, star, hc, hc', hcb]
+    | cons c2 r2 =>
+      obtain ⟨m, z, hmz⟩ := exists_snoc (c2 :: r2) (by simp)
+      rw [hmz] at hnd ⊢
+      have hne : (c :: (m ++ [z]) == star) = false := by
+        cases m <;> simp [star]
+      have hhead : (c :: (m ++ [z])).head? = some c := rfl
+      have hlast : (c :: (m ++ [z])).getLast? = some z := by
+        rw [← List.cons_append]; exact List.getLast?_concat ..
+      have hpre : hasPrefix (c :: (m ++ [z])) star = (c == '*') := by
+        simp [hasPrefix, star, List.isPrefixOf, Bool.beq_comm]
+      have hsuf : hasSuffix (c :: (m ++ [z])) star = (z == '*') := by
+        simp [hasSuffix, star, List.isSuffixOf, List.isPrefixOf, Bool.beq_comm]
+      have hne' : (c :: (m ++ [z]) == ['*']) = false := hne
+      simp only [hne, hne', hhead, hlast, hpre, hsuf, Bool.false_eq_true, if_false, Option.some_beq_some]
+      by_cases hc : c = '*'
+      · subst hc
+        have hct : ('*' :: (m ++ [z])).contains '*' = true := by simp
+        simp only [hct, if_true, beq_self_eq_true, Bool.true_and]
+        by_cases hz : z = '*'
+        · subst hz
+          simp only [beq_self_eq_true, if_true]
+          -- `*m*`: m is non-empty and star-free at both ends
+          have hdrop : (List.drop 1 ('*' :: (m ++ ['*']))).dropLast = m := by simp
+          rw [hdrop]
+          cases hm : m with
+          | nil => rw [hm] at hnd; simp [containsSub, List.isPrefixOf] at hnd
+          | cons d u =>
+            have hd : d ≠ '*' := by
+              intro hds; subst hds
+              rw [hm] at hnd; simp [containsSub, List.isPrefixOf] at hnd
+            obtain ⟨w, y, hwy⟩ := exists_snoc (d :: u) (by simp)
+            have hy : y ≠ '*' := by
+              intro hys; subst hys
+              rw [hm, hwy] at hnd
+              have : containsSub ('*' :: (w ++ ['*'] ++ ['*'])) ['*', '*'] = true := by
+                rw [show '*' :: (w ++ ['*'] ++ ['*']) = ('*' :: w) ++ ['*', '*'] by simp]
+                exact containsSub_append_left _ _ _ (by simp [containsSub, List.isPrefixOf])
+              rw [this] at hnd; cases hnd
+            rw [trimStars_mid (d :: u) d y u rfl hd w hwy hy]
+        · have hzb : (z == '*') = false := by simp [hz]
+          simp only [hzb, Bool.false_eq_true, if_false, trimPrefixStar, hasSuffix]
+          simp
+      · have hcb : (c == '*') = false := by simp [hc]
+        simp only [hcb, Bool.false_and, Bool.false_eq_true, if_false]
+        by_cases hz : z = '*'
+        · subst hz
+          have hct : (c :: (m ++ ['*'])).contains '*' = true := by simp
+          simp only [hct, if_true, beq_self_eq_true]
+          have : trimSuffixStar (c :: (m ++ ['*'])) = (c :: (m ++ ['*'])).dropLast := by
+            unfold trimSuffixStar
+            rw [show (c :: (m ++ ['*'])).reverse = '*' :: (c :: m).reverse by simp]
+            simp only [trimPrefixStar, List.reverse_reverse]
+            rw [show c :: (m ++ ['*']) = (c :: m) ++ ['*'] from rfl, List.dropLast_concat]
+          rw [this]; rfl
+        · have hzb : (z == '*') = false := by simp [hz]
+          simp only [hzb, Bool.false_eq_true, if_false]
+          split <;> rfl
+
+/-! ### The pattern cache -/
+
+/-- names for which the pinned `"%s::%s"` key is unambiguous: no "::" inside and no ':' at the end -/
+def noDC : Str → Bool
+  | [] => true
+  | [c] => c != ':'
+  | c :: d :: r => !(c == ':' && d == ':') && noDC (d :: r)
+
+private def splitFirst : Str → Option (Str × Str)
+  | [] => none
+  | [_] => none
+  | c :: d :: rest =>
+    if c == ':' && d == ':' then some ([], rest)
+    else (splitFirst (d :: rest)).map (fun p => (c :: p.1, p.2))
+
+private theorem splitFirst_key (s p : Str) (h : noDC s = true) : splitFirst (s ++ sep ++ p) = some (s, p) := by
+  match s, h with
+  | [], _ => simp [sep, splitFirst]
+  | [c], h =>
+    have hc : (c == ':') = false := by simpa [noDC] using h
+    simp [sep, splitFirst, hc]
+  | c :: d :: r, h =>
+    simp only [noDC, Bool.and_eq_true, Bool.not_eq_true'] at h
+    have ih := splitFirst_key (d :: r) p h.2
+    simp only [List.cons_append] at ih ⊢
+    rw [splitFirst]
+    simp only [h.1, Bool.false_eq_true, if_false, ih, Option.map_some]
+
+/-- the cache key identifies the lookup: always with the struct key, and for unambiguous names with the pinned one -/
+def KeyOk (v : Glob.Variant) (s : Str) : Prop := v = .fixed ∨ noDC s = true
+
+private theorem key_inj (v : Glob.Variant) (s s' p p' : Str) (h : KeyOk v s) (h' : KeyOk v s')
+    (hk : cacheKey v s p = cacheKey v s' p') : s = s' ∧ p = p' := by
+  cases v with
+  | fixed => simpa [cacheKey] using hk
+  | pinned =>
+    have hs : noDC s = true := by rcases h with h | h; cases h; exact h
+    have hs' : noDC s' = true := by rcases h' with h | h; cases h; exact h
+    simp only [cacheKey, Prod.mk.injEq, and_true] at hk
+    have h1 := splitFirst_key s p hs
+    have h2 := splitFirst_key s' p' hs'
+    rw [hk, h2] at h1
+    simpa using h1.symm
+
+/-- every cached answer is the answer of the lookup it was stored for -/
+def CacheInv (v : Glob.Variant) (c : Cache) : Prop :=
+  ∀ k r, (k, r) ∈ c → ∃ s p, KeyOk v s ∧ k = cacheKey v s p ∧ r = matchesGlob s p
+
+private theorem find_mem (c : Cache) (k : Key) (r : Bool) (h : c.find k = some r) : (k, r) ∈ c := by
+  unfold Cache.find at h
+  cases hf : c.find? (fun e => e.1 == k) with
+  | none => simp [hf] at h
+  | some e =>
+    simp only [hf, Option.map_some, Option.some.injEq] at h
+    have hm := List.mem_of_find?_eq_some hf
+    have hp := List.find?_some hf
+    have : e.1 = k := by simpa using hp
+    subst h; subst this
+    exact hm
+
+private theorem matchesPattern_ok (v : Glob.Variant) (c : Cache) (s p : Str) (hc : CacheInv v c) (hs : KeyOk v s) :
+    (matchesPattern v c s p).1 = matchesGlob s p ∧ CacheInv v (matchesPattern v c s p).2 := by
+  unfold matchesPattern
+  cases hf : c.find (cacheKey v s p) with
+  | some r =>
+    simp only
+    obtain ⟨s', p', hk', heq, hr⟩ := hc _ _ (find_mem c _ r hf)
+    obtain ⟨h1, h2⟩ := key_inj v s s' p p' hs hk' heq
+    subst h1; subst h2
+    exact ⟨hr, hc⟩
+  | none =>
+    simp only
+    refine ⟨trivial, fun k r hm => ?_⟩
+    rcases List.mem_cons.mp hm with heq | hin
+    · cases heq; exact ⟨s, p, hs, rfl, rfl⟩
+    · exact hc k r hin
+
+private theorem anyMatch_ok (v : Glob.Variant) (s : Str) (hs : KeyOk v s) (ps : List Str) (c : Cache) (hc : CacheInv v c) :
+    (anyMatch v c s ps).1 = ps.any (matchesGlob s) ∧ CacheInv v (anyMatch v c s ps).2 := by
+  induction ps generalizing c with
+  | nil => exact ⟨rfl, hc⟩
+  | cons p ps ih =>
+    obtain ⟨h1, h2⟩ := matchesPattern_ok v c s p hc hs
+    simp only [anyMatch, List.any_cons]
+    cases hm : matchesPattern v c s p with
+    | mk m c' =>
+      rw [hm] at h1 h2
+      simp only at h1 h2 ⊢
+      subst h1
+      cases hg : matchesGlob s p with
+      | true => simp [hg, h2]
+      | false =>
+        simp only [hg, Bool.false_eq_true, if_false, Bool.false_or]
+        exact ih c' h2
+
+/-- **Cache transparency, one lookup**: whatever has been looked up before, `GlobFilter.Matches` answers
+    what the patterns say about the name, and the cache stays truthful. Pinned key: for names without "::". -/
+theorem glob_lookup_pure (v : Glob.Variant) (c : Cache) (cfg : Config) (s : Str) (hc : CacheInv v c) (hs : KeyOk v s) :
+    filterOk cfg s (matchesCfg v c cfg s).1 = true ∧ CacheInv v (matchesCfg v c cfg s).2 := by
+  unfold filterOk matchesCfg pureMatches
+  by_cases he : cfg.isEmpty = true
+  · simp [he, hc]
+  · simp only [he, Bool.false_eq_true, if_false]
+    by_cases hall : cfg.hasIncludeAll = true
+    · simp only [hall, if_true, Bool.not_true, Bool.false_eq_true, if_false, Bool.true_or, Bool.true_and]
+      obtain ⟨h1, h2⟩ := anyMatch_ok v s hs cfg.exc c hc
+      cases hm : anyMatch v c s cfg.exc with
+      | mk m c' => rw [hm] at h1 h2; simp only at h1 h2 ⊢; subst h1; simp [h2]
+    · simp only [hall, Bool.false_eq_true, if_false, Bool.false_or]
+      obtain ⟨h1, h2⟩ := anyMatch_ok v s hs cfg.inc c hc
+      cases hm : anyMatch v c s cfg.inc with
+      | mk m c1 =>
+        rw [hm] at h1 h2; simp only at h1 h2 ⊢; subst h1
+        cases hi : cfg.inc.any (matchesGlob s) with
+        | false => simp [h2]
+        | true =>
+          simp only [Bool.not_true, Bool.false_eq_true, if_false, Bool.true_and]
+          obtain ⟨h3, h4⟩ := anyMatch_ok v s hs cfg.exc c1 h2
+          cases hm2 : anyMatch v c1 s cfg.exc with
+          | mk m2 c2 => rw [hm2] at h3 h4; simp only at h3 h4 ⊢; subst h3; simp [h4]
+
+/-- a GlobFilter used for a whole sequence of lookups, starting with an empty cache -/
+def runLookups (v : Glob.Variant) : Cache → List (Config × Str) → List Bool
+  | _, [] => []
+  | c, (cfg, s) :: rest => let (m, c') := matchesCfg v c cfg s; m :: runLookups v c' rest
+
+/-- **Whether a model name matches a filter depends only on the name and the patterns, not on earlier
+    lookups**: every answer in every sequence of lookups is the cache-free answer. Pinned key: provided no
+    looked-up name contains "::" or ends in ':' (witness below). -/
+theorem glob_cache_transparent (v : Glob.Variant) (looks : List (Config × Str)) (h : ∀ l ∈ looks, KeyOk v l.2) :
+    runLookups v [] looks = looks.map (fun l => pureMatches l.1 l.2) := by
+  suffices hgen : ∀ c, CacheInv v c → runLookups v c looks = looks.map (fun l => pureMatches l.1 l.2) from
+    hgen [] (fun k r hm => by simp at hm)
+  induction looks with
+  | nil => intro c _; rfl
+  | cons l rest ih =>
+    intro c hc
+    obtain ⟨cfg, s⟩ := l
+    obtain ⟨h1, h2⟩ := glob_lookup_pure v c cfg s hc (h _ List.mem_cons_self)
+    simp only [runLookups, List.map_cons]
+    cases hm : matchesCfg v c cfg s with
+    | mk m c' =>
+      rw [hm] at h1 h2
+      simp only at h1 h2 ⊢
+      rw [ih (fun l hl => h l (List.mem_cons_of_mem _ hl)) c' h2]
+      simp only [filterOk, beq_iff_eq] at h1
+      rw [h1]
+
+/-- Full strength with the struct key (fixes/C10-glob-cache-key.patch): no condition on the names. -/
+theorem glob_cache_transparent_fixed (looks : List (Config × Str)) :
+    runLookups .fixed [] looks = looks.map (fun l => pureMatches l.1 l.2) :=
+  glob_cache_transparent .fixed looks (fun _ _ => Or.inl rfl)
+
+/-- Pinned tree (DESIGN §4 #13): look up name "a::a" against include ["a*"] (true, cached under
+    "a::a::a*"), then name "a" against include ["a::a*"]: same key, the cached `true` comes back although
+    "a" does not start with "a::a". -/
+theorem glob_cache_transparent_pinned_witness :
+    runLookups .pinned [] [(⟨["a*".toList], []⟩, "a::a".toList), (⟨["a::a*".toList], []⟩, "a".toList)] = [true, true] ∧
+    pureMatches ⟨["a::a*".toList], []⟩ "a".toList = false := by decide
+
+private theorem applyLoop_ok (v : Glob.Variant) (cfg : Config) (ss : List Str) (hs : ∀ s ∈ ss, KeyOk v s) (c : Cache)
+    (hc : CacheInv v c) :
+    (applyLoop v cfg c ss).1 = ss.map (pureMatches cfg) ∧ CacheInv v (applyLoop v cfg c ss).2 := by
+  induction ss generalizing c with
+  | nil => exact ⟨rfl, hc⟩
+  | cons s ss ih =>
+    obtain ⟨h1, h2⟩ := glob_lookup_pure v c cfg s hc (hs s List.mem_cons_self)
+    simp only [applyLoop, List.map_cons]
+    cases hm : matchesCfg v c cfg s with
+    | mk m c1 =>
+      rw [hm] at h1 h2
+      simp only at h1 h2 ⊢
+      obtain ⟨h3, h4⟩ := ih (fun x hx => hs x (List.mem_cons_of_mem _ hx)) c1 h2
+      cases hm2 : applyLoop v cfg c1 ss with
+      | mk fl c2 =>
+        rw [hm2] at h3 h4
+        simp only at h3 h4 ⊢
+        simp only [filterOk, beq_iff_eq] at h1
+        exact ⟨by rw [h1, h3], h4⟩
+
+private theorem filter_true {α} (l : List α) : l.filter (fun _ => true) = l := by
+  induction l with
+  | nil => rfl
+  | cons a t ih => simp [ih]
+
+private theorem zip_filter_map {α} (l : List α) (f : α → Bool) :
+    ((l.zip (l.map f)).filter (·.2)).map (·.1) = l.filter f := by
+  induction l with
+  | nil => rfl
+  | cons a t ih =>
+    simp only [List.map_cons, List.zip_cons_cons, List.filter_cons]
+    cases f a <;> simp [ih]
+
+/-- **The discovery service registers exactly the models that pass the endpoint's valid filter**, whatever
+    the shared GlobFilter has been asked before (pinned key: for model names without "::"). -/
+theorem filterListing_pure (v : Glob.Variant) (c : Cache) (cfg : Option Config) (ms : List Model) (hc : CacheInv v c)
+    (hs : ∀ m ∈ ms, KeyOk v m.name.toList) :
+    (filterListing v c cfg ms).1 = ms.filter (passes cfg) ∧ CacheInv v (filterListing v c cfg ms).2 := by
+  unfold filterListing passes
+  cases cfg with
+  | none => simp [hc, filter_true]
+  | some cfg =>
+    simp only
+    by_cases he : cfg.isEmpty = true
+    · simp [he, hc, filter_true]
+    · simp only [he, Bool.false_eq_true, if_false, Bool.false_or]
+      unfold Glob.apply
+      simp only [he, Bool.false_eq_true, if_false]
+      by_cases hv : cfg.valid = true
+      · simp only [hv, Bool.not_true, Bool.false_eq_true, if_false]
+        obtain ⟨h1, h2⟩ := applyLoop_ok v cfg (ms.map (·.name.toList))
+          (fun s hs' => by
+            obtain ⟨m, hm, rfl⟩ := List.mem_map.mp hs'
+            exact hs m hm) c hc
+        cases hm : applyLoop v cfg c (ms.map (·.name.toList)) with
+        | mk fl c' =>
+          rw [hm] at h1 h2
+          simp only at h1 h2 ⊢
+          refine ⟨?_, h2⟩
+          rw [h1, List.map_map]
+          exact zip_filter_map ms _
+      · simp [hv, hc, filter_true]
+
+end glob
+
+/-! ### The unified catalogue -/
+
+/-- the unified registry driven by the property-level operations (`run i`: the scheduler lets the `i`-th
+    outstanding unification goroutine run) -/
+def uStep (vs : Variants) (u : Unified) : Op → Unified
+  | .reg e ms => (u.registerModels vs e ms).1
+  | .reg1 e m => { u with base := (u.base.registerModel e m).1 }
+  | .remove e => u.removeEndpoint vs e
+  | .failed => u
+  | .run i => u.runTask vs i
+
+def uRun (vs : Variants) (u : Unified) (ops : List Op) : Unified := ops.foldl (uStep vs) u
+
+/-- the unified registry's base part is the base registry -/
+theorem uRun_base (vs : Variants) (u : Unified) (ops : List Op) : (uRun vs u ops).base = baseRun vs u.base ops := by
+  induction ops generalizing u with
+  | nil => rfl
+  | cons op ops ih =>
+    simp only [uRun, baseRun, List.foldl_cons] at ih ⊢
+    rw [ih]
+    congr 1
+    cases op with
+    | reg e ms =>
+      simp only [uStep, baseStep, Unified.registerModels]
+      cases (u.base.registerModels vs e ms) with
+      | mk b ok => cases ok <;> rfl
+    | reg1 e m => rfl
+    | remove e => simp [uStep, baseStep, Unified.removeEndpoint]
+    | failed => rfl
+    | run i =>
+      simp only [uStep, baseStep, Unified.runTask]
+      cases u.pending[i]? with
+      | none => rfl
+      | some t =>
+        simp only
+        cases vs.inOrder with
+        | pinned => simp [runUnify]
+        | fixed =>
+          simp only
+          cases mget (u.latest) t.url <;> simp [runUnify]
+
+/-- `A e n`: the reference listing of endpoint `e` contains the name `n` -/
+private def Allowed (r : Ref) (e : Url) (n : String) : Prop := n ∈ names (listed r e)
+
+private def SrcOk (A : Url → String → Prop) (o : UModel) : Prop := ∀ s ∈ o.sources, A s.url s.native
+/-- every object on the heap (reachable or not) only has sources the reference allows -/
+private def HeapOk (A : Url → String → Prop) (h : Heap) : Prop := ∀ o ∈ h, SrcOk A o
+
+private theorem srcOk_default (A : Url → String → Prop) : SrcOk A (default : UModel) := by
+  intro s hs; cases hs
+
+private theorem read_ok {A : Url → String → Prop} {h : Heap} (hh : HeapOk A h) (a : Addr) : SrcOk A (h.read a) := by
+  unfold Heap.read
+  cases hg : h[a]? with
+  | none => simp only [List.getD_eq_getElem?_getD, hg, Option.getD_none]; exact srcOk_default A
+  | some o =>
+    simp only [List.getD_eq_getElem?_getD, hg, Option.getD_some]
+    exact hh o (List.mem_of_getElem? hg)
+
+private theorem write_ok {A : Url → String → Prop} {h : Heap} (hh : HeapOk A h) (a : Addr) (o : UModel) (ho : SrcOk A o) :
+    HeapOk A (h.write a o) := by
+  intro x hx
+  rcases List.mem_or_eq_of_mem_set hx with hin | heq
+  · exact hh x hin
+  · subst heq; exact ho
+
+private theorem alloc_ok {A : Url → String → Prop} {h : Heap} (hh : HeapOk A h) (o : UModel) (ho : SrcOk A o) :
+    HeapOk A (h.alloc o).1 := by
+  intro x hx
+  simp only [Heap.alloc, List.mem_append, List.mem_singleton] at hx
+  rcases hx with hin | heq
+  · exact hh x hin
+  · subst heq; exact ho
+
+private theorem putModel_ok {A : Url → String → Prop} {h : Heap} (hh : HeapOk A h) (st : Store) (o : UModel) (ho : SrcOk A o) :
+    HeapOk A (putModel h st o).1 := alloc_ok hh o ho
+
+private theorem updateNative_ok {A : Url → String → Prop} (l : List Src) (e : Url) (n : String)
+    (hl : ∀ s ∈ l, A s.url s.native) (hn : A e n) : ∀ s ∈ updateNative l e n, A s.url s.native := by
+  induction l with
+  | nil => intro s hs; cases hs
+  | cons x xs ih =>
+    intro s hs
+    simp only [updateNative] at hs
+    split at hs
+    · rename_i hx
+      have hxe : x.url = e := by simpa using hx
+      rcases List.mem_cons.mp hs with heq | hin
+      · subst heq; simpa [hxe] using hn
+      · exact hl s (List.mem_cons_of_mem _ hin)
+    · rcases List.mem_cons.mp hs with heq | hin
+      · subst heq; exact hl _ List.mem_cons_self
+      · exact ih (fun y hy => hl y (List.mem_cons_of_mem _ hy)) s hin
+
+private theorem mergeModel_ok {A : Url → String → Prop} {h : Heap} (hh : HeapOk A h) (st : Store) (a : Addr) (m : Model) (e : Url)
+    (hn : A e m.name) : HeapOk A (mergeModel h st a m e).1 := by
+  unfold mergeModel
+  have ho := read_ok hh a
+  simp only
+  apply putModel_ok
+  · apply write_ok hh
+    split
+    · exact updateNative_ok _ _ _ ho hn
+    · intro s hs
+      simp only [List.mem_append, List.mem_singleton] at hs
+      rcases hs with hin | heq
+      · exact ho s hin
+      · subst heq; exact hn
+  · split
+    · exact updateNative_ok _ _ _ ho hn
+    · intro s hs
+      simp only [List.mem_append, List.mem_singleton] at hs
+      rcases hs with hin | heq
+      · exact ho s hin
+      · subst heq; exact hn
+
+private theorem processModel_ok {A : Url → String → Prop} {h : Heap} (hh : HeapOk A h) (st : Store) (m : Model) (e : Url)
+    (hn : A e m.name) : HeapOk A (processModel h st m e).1 := by
+  unfold processModel
+  simp only
+  split
+  · exact mergeModel_ok hh st _ m e hn
+  · split
+    · exact mergeModel_ok hh st _ m e hn
+    · refine putModel_ok hh st _ ?_
+      intro s hs
+      simp only [List.mem_singleton] at hs
+      subst hs; exact hn
+
+private theorem removeModelFromEndpoint_ok {A : Url → String → Prop} {h : Heap} (hh : HeapOk A h) (st : Store) (id : String) (e : Url) :
+    HeapOk A (removeModelFromEndpoint h st id e).1 := by
+  unfold removeModelFromEndpoint
+  split
+  · exact hh
+  · rename_i a _
+    simp only
+    have ho := read_ok hh a
+    have hf : SrcOk A { h.read a with sources := (h.read a).sources.filter (fun s => !(s.url == e)) } := by
+      intro s hs
+      exact ho s (List.mem_filter.mp hs).1
+    split
+    · exact hh
+    · exact putModel_ok (write_ok hh a _ hf) st _ hf
+
+private theorem removeOld_ok {A : Url → String → Prop} (e : Url) (ids : List String) (p : Heap × Store) (hp : HeapOk A p.1) :
+    HeapOk A (removeOld e p ids).1 := by
+  unfold removeOld
+  induction ids generalizing p with
+  | nil => exact hp
+  | cons id ids ih =>
+    simp only [List.foldl_cons]
+    exact ih _ (removeModelFromEndpoint_ok hp p.2 id e)
+
+private theorem processAll_ok {A : Url → String → Prop} (e : Url) (l : List (Option Model)) (p : Heap × Store × List String)
+    (hl : ∀ m, some m ∈ l → A e m.name) (hp : HeapOk A p.1) : HeapOk A (l.foldl (processOne e) p).1 := by
+  induction l generalizing p with
+  | nil => exact hp
+  | cons m l ih =>
+    simp only [List.foldl_cons]
+    apply ih _ (fun x hx => hl x (List.mem_cons_of_mem _ hx))
+    cases m with
+    | none => exact hp
+    | some m => exact processModel_ok hp p.2.1 m e (hl m List.mem_cons_self)
+
+private theorem unifyModels_ok {A : Url → String → Prop} {h : Heap} (hh : HeapOk A h) (st : Store) (ms : List (Option Model)) (e : Url)
+    (hms : ∀ m, some m ∈ ms → A e m.name) : HeapOk A (unifyModels h st ms e).1 := by
+  unfold unifyModels
+  exact processAll_ok e ms _ hms (removeOld_ok e _ (h, st) hh)
+
+private theorem addSrc_ok {A : Url → String → Prop} (acc : List Src) (s : Src) (ha : ∀ x ∈ acc, A x.url x.native) (hs : A s.url s.native) :
+    ∀ x ∈ addSrcFirstWins acc s, A x.url x.native := by
+  unfold addSrcFirstWins
+  split
+  · exact ha
+  · intro x hx
+    simp only [List.mem_append, List.mem_singleton] at hx
+    rcases hx with hin | heq
+    · exact ha x hin
+    · subst heq; exact hs
+
+private theorem mergeObjects_ok {A : Url → String → Prop} (os : List UModel) (hos : ∀ o ∈ os, SrcOk A o) : SrcOk A (mergeObjects os) := by
+  unfold mergeObjects SrcOk
+  simp only
+  have inner : ∀ (l : List Src) (acc : List Src), (∀ x ∈ acc, A x.url x.native) → (∀ x ∈ l, A x.url x.native) →
+      ∀ x ∈ l.foldl addSrcFirstWins acc, A x.url x.native := by
+    intro l
+    induction l with
+    | nil => intro acc ha _; exact ha
+    | cons s l ih =>
+      intro acc ha hl
+      simp only [List.foldl_cons]
+      exact ih _ (addSrc_ok acc s ha (hl s List.mem_cons_self)) (fun x hx => hl x (List.mem_cons_of_mem _ hx))
+  have outer : ∀ (l : List UModel) (acc : List Src), (∀ x ∈ acc, A x.url x.native) → (∀ o ∈ l, SrcOk A o) →
+      ∀ x ∈ l.foldl (fun acc o => o.sources.foldl addSrcFirstWins acc) acc, A x.url x.native := by
+    intro l
+    induction l with
+    | nil => intro acc ha _; exact ha
+    | cons o l ih =>
+      intro acc ha hl
+      simp only [List.foldl_cons]
+      exact ih _ (inner o.sources acc ha (hl o List.mem_cons_self)) (fun x hx => hl x (List.mem_cons_of_mem _ hx))
+  exact outer os [] (fun x hx => by cases hx) hos
+
+private theorem dropOne_ok {A : Url → String → Prop} (e : Url) (p : Heap × List (String × Addr)) (ent : String × Addr)
+    (hp : HeapOk A p.1) : HeapOk A (dropOne e p ent).1 := by
+  unfold dropOne
+  simp only
+  split
+  · split
+    · exact hp
+    · apply alloc_ok hp
+      intro s hs
+      exact read_ok hp ent.2 s (List.mem_filter.mp hs).1
+  · exact hp
+
+private theorem dropGlobal_ok {A : Url → String → Prop} {h : Heap} (hh : HeapOk A h) (g : List (String × Addr)) (e : Url) :
+    HeapOk A (dropEndpointFromGlobal h g e).1 := by
+  unfold dropEndpointFromGlobal
+  have : ∀ (l : List (String × Addr)) (p : Heap × List (String × Addr)), HeapOk A p.1 → HeapOk A (l.foldl (dropOne e) p).1 := by
+    intro l
+    induction l with
+    | nil => intro p hp; exact hp
+    | cons ent l ih => intro p hp; exact ih _ (dropOne_ok e p ent hp)
+  exact this g (h, g) hh
+
+private theorem mergeGroup_ok {A : Url → String → Prop} (p : Heap × List (String × Addr)) (grp : String × List Addr)
+    (hp : HeapOk A p.1) : HeapOk A (mergeGroup p grp).1 := by
+  unfold mergeGroup
+  simp only
+  split
+  · exact hp
+  · apply alloc_ok hp
+    apply mergeObjects_ok
+    intro o ho
+    obtain ⟨a, _, rfl⟩ := List.mem_map.mp ho
+    exact read_ok hp a
+
+private theorem runUnify_ok {A : Url → String → Prop} (vs : Variants) (u : Unified) (t : Task) (hh : HeapOk A u.heap)
+    (ht : ∀ m, some m ∈ t.models → A t.url m.name) : HeapOk A (runUnify vs u t).heap := by
+  unfold runUnify
+  simp only
+  have h0 : HeapOk A (match vs.dropStale with
+      | .pinned => (u.heap, u.global)
+      | .fixed => dropEndpointFromGlobal u.heap u.global t.url).1 := by
+    cases vs.dropStale with
+    | pinned => exact hh
+    | fixed => exact dropGlobal_ok hh u.global t.url
+  have h1 := unifyModels_ok h0 u.store t.models t.url ht
+  have : ∀ (l : List (String × List Addr)) (p : Heap × List (String × Addr)), HeapOk A p.1 → HeapOk A (l.foldl mergeGroup p).1 := by
+    intro l
+    induction l with
+    | nil => intro p hp; exact hp
+    | cons grp l ih => intro p hp; exact ih _ (mergeGroup_ok p grp hp)
+  exact this _ _ h1
+
+/-- a listing only ever ADDS names (no endpoint removal, no listing that drops a name) -/
+def growingOp (r : Ref) : Op → Prop
+  | .reg e ms => (Op.reg e ms).rejected = true ∨ ∀ n ∈ names (listed r e), n ∈ names (ms.filterMap id)
+  | .remove _ => False
+  | _ => True
+
+def growing : Ref → List Op → Prop
+  | _, [] => True
+  | r, op :: ops => growingOp r op ∧ growing (r.step op) ops
+
+private structure MInv (u : Unified) (r : Ref) : Prop where
+  heap    : HeapOk (Allowed r) u.heap
+  pending : ∀ t ∈ u.pending, ∀ m, some m ∈ t.models → Allowed r t.url m.name
+  latest  : ∀ e ms, mget u.latest e = some ms → ∀ m, some m ∈ ms → Allowed r e m.name
+
+private theorem heapOk_mono {A B : Url → String → Prop} {h : Heap} (hab : ∀ e n, A e n → B e n) (hh : HeapOk A h) : HeapOk B h :=
+  fun o ho s hs => hab _ _ (hh o ho s hs)
+
+private theorem allowed_step_mono (r : Ref) (op : Op) (hg : growingOp r op) (e : Url) (n : String)
+    (h : Allowed r e n) : Allowed (r.step op) e n := by
+  unfold Allowed at h ⊢
+  unfold Ref.step
+  split
+  · exact h
+  · rename_i hrej
+    cases op with
+    | failed => exact h
+    | run i => exact h
+    | remove x => exact absurd hg (by simp [growingOp])
+    | reg x ms =>
+      simp only [listed, Ref.set]
+      by_cases hx : e = x
+      · subst hx
+        simp only [if_true]
+        rcases hg with hr | hgrow
+        · exact absurd hr hrej
+        · have hin := hgrow n h
+          by_cases hemp : ms.isEmpty = true
+          · have : ms = [] := List.isEmpty_iff.mp hemp
+            subst this; simp [names] at hin
+          · simpa [hemp] using hin
+      · simpa [hx, listed] using h
+    | reg1 x m =>
+      simp only [listed, Ref.set]
+      by_cases hx : e = x
+      · subst hx
+        simp only [if_true, Option.getD_some]
+        exact (mem_names_addOne _ m n).mpr (Or.inl h)
+      · simpa [hx, listed] using h
+
+private theorem minv_step (vs : Variants) {u : Unified} {r : Ref} (h : MInv u r) (op : Op) (hg : growingOp r op) :
+    MInv (uStep vs u op) (r.step op) := by
+  have mono := allowed_step_mono r op hg
+  cases op with
+  | failed => exact h
+  | remove x => exact absurd hg (by simp [growingOp])
+  | reg1 x m =>
+    refine ⟨heapOk_mono mono h.heap, fun t ht m' hm' => mono _ _ (h.pending t ht m' hm'),
+      fun e ms he m' hm' => mono _ _ (h.latest e ms he m' hm')⟩
+  | run i =>
+    have hstep : (Ref.step r (.run i)) = r := by simp [Ref.step, Op.rejected]
+    rw [hstep]
+    simp only [uStep, Unified.runTask]
+    cases hp : u.pending[i]? with
+    | none => exact h
+    | some t =>
+      simp only
+      have htin : t ∈ u.pending := List.mem_of_getElem? hp
+      have hpend' : ∀ t' ∈ u.pending.eraseIdx i, ∀ m, some m ∈ t'.models → Allowed r t'.url m.name :=
+        fun t' ht' => h.pending t' ((List.eraseIdx_sublist _ _).subset ht')
+      cases hio : vs.inOrder with
+      | pinned =>
+        simp only
+        refine ⟨runUnify_ok vs _ t h.heap (h.pending t htin), ?_, ?_⟩
+        · simpa [runUnify] using hpend'
+        · simpa [runUnify] using h.latest
+      | fixed =>
+        simp only
+        cases hl : mget u.latest t.url with
+        | none => exact ⟨h.heap, hpend', h.latest⟩
+        | some ms =>
+          simp only
+          refine ⟨runUnify_ok vs _ ⟨t.url, ms⟩ h.heap (h.latest t.url ms hl), ?_, ?_⟩
+          · simpa [runUnify] using hpend'
+          · intro e ms' he m hm
+            simp only [runUnify] at he
+            rw [mget_mdel] at he
+            split at he
+            · cases he
+            · exact h.latest e ms' he m hm
+  | reg x ms =>
+    simp only [uStep, Unified.registerModels]
+    -- the reference after the step allows the new listing's names
+    have hnew : (Op.reg x ms).rejected = false → ∀ m, some m ∈ ms → Allowed (r.step (.reg x ms)) x m.name := by
+      intro hrej m hm
+      unfold Allowed Ref.step
+      simp only [hrej, Bool.false_eq_true, if_false, listed, Ref.set, if_true]
+      have hne : ms.isEmpty = false := by
+        cases ms with
+        | nil => cases hm
+        | cons a t => rfl
+      simp only [hne, Bool.false_eq_true, if_false, Option.getD_some, names, List.mem_map, List.mem_filterMap, id]
+      exact ⟨m, ⟨some m, hm, rfl⟩, rfl⟩
+    cases hreg : u.base.registerModels vs x ms with
+    | mk b ok =>
+      cases ok with
+      | false =>
+        simp only [Bool.false_eq_true, if_false]
+        exact ⟨heapOk_mono mono h.heap, fun t ht m' hm' => mono _ _ (h.pending t ht m' hm'),
+          fun e ms' he m' hm' => mono _ _ (h.latest e ms' he m' hm')⟩
+      | true =>
+        simp only [if_true]
+        -- accepted by the base registry: the listing has no unnamed entry
+        have hrej : (Op.reg x ms).rejected = false := by
+          show hasEmptyName ms = false
+          cases hne : hasEmptyName ms with
           | false => rfl
           | true =>
-            have := List.isSuffixOf_iff_suffix.mp hh
-            obtain ⟨pre, hpre⟩ := this
-            have := congrArg List.getLast? hpre
-            simp at this
-            exact absurd this.symm hz
-        simp only [hsuf, Bool.false_eq_true, if_false, trimPrefixStar, hasSuffix]
-        have : (match z :: mid with | '*' :: mid => containsSub t mid.reverse | _ => List.isSuffixOf (c :: r) t) = List.isSuffixOf (c :: r) t := by
-          split
-          · rename_i heq; cases heq; exact absurd rfl hz
-          · rfl
-        rw [this]
-  | c :: r, hnd =>
-    by_cases hc : c = '*'
-    · subst hc
-      -- handled by the previous alternatives
-      cases r with
-      | nil => simp [star]
-      | cons c2 r2 => exact absurd rfl (by intro; contradiction)
-    · sorry
-end glob
+            exfalso
+            unfold Base.registerModels at hreg
+            by_cases hvf : (vs.validateFirst == .fixed) = true
+            · simp [hvf, hne] at hreg
+            · simp only [hvf, Bool.false_and, Bool.false_eq_true, if_false] at hreg
+              have hms : ms.isEmpty = false := by
+                cases ms with
+                | nil => simp [hasEmptyName] at hne
+                | cons a t => rfl
+              simp only [hms, Bool.false_eq_true, if_false] at hreg
+              have hab := registerLoop_abort x ms (removeEndpointFromIndex u.base x) [] hne
+              cases hloop : registerLoop x (removeEndpointFromIndex u.base x) [] ms with
+              | mk idx rest =>
+                obtain ⟨cp, ab⟩ := rest
+                rw [hloop] at hab hreg
+                simp only at hab hreg
+                subst hab
+                simp at hreg
+        refine ⟨heapOk_mono mono h.heap, ?_, ?_⟩
+        · intro t ht m' hm'
+          simp only [List.mem_append, List.mem_singleton] at ht
+          rcases ht with hin | heq
+          · exact mono _ _ (h.pending t hin m' hm')
+          · subst heq; exact hnew hrej m' hm'
+        · intro e ms' he m' hm'
+          cases hio : vs.inOrder with
+          | pinned =>
+            simp only [hio] at he
+            exact mono _ _ (h.latest e ms' he m' hm')
+          | fixed =>
+            simp only [hio] at he
+            rw [mget_mput] at he
+            split at he
+            · rename_i hex
+              have : e = x := by simpa using hex
+              subst this
+              cases he
+              exact hnew hrej m' hm'
+            · exact mono _ _ (h.latest e ms' he m' hm')
+
+private theorem minv_run (vs : Variants) (ops : List Op) :
+    ∀ (u : Unified) (r : Ref), MInv u r → growing r ops → MInv (uRun vs u ops) (Ref.run r ops) := by
+  induction ops with
+  | nil => intro u r h _; exact h
+  | cons op ops ih =>
+    intro u r h hg'
+    simp only [uRun, Ref.run, List.foldl_cons]
+    exact ih _ _ (minv_step vs h op hg'.1) hg'.2
+
+/-- **The unified catalogue only attributes a model to an endpoint that currently lists it** — in EVERY
+    reachable state (quiescent or not), for EVERY schedule of the unification goroutines and every variant of
+    the tree — for histories in which listings only grow: no endpoint is removed and no new listing of an
+    endpoint drops a name the previous one had. (Without that restriction the pinned tree fails, see the
+    witnesses below.) -/
+theorem unified_sound_partial (vs : Variants) (ops : List Op) (hg : growing Ref.empty ops) :
+    catalogueSound (Ref.run Ref.empty ops) (uRun vs Unified.empty ops).catalogue = true := by
+  have h0 : MInv Unified.empty Ref.empty :=
+    ⟨(fun o ho => by cases ho), (fun t ht => by cases ht), (fun e ms he => by simp [Unified.empty, mget] at he)⟩
+  have hfin := minv_run vs ops _ _ h0 hg
+  simp only [catalogueSound, Unified.catalogue, List.all_eq_true, List.mem_map]
+  rintro o ⟨p, _, rfl⟩ s hs
+  have := read_ok hfin.heap p.2 s hs
+  unfold Allowed at this
+  simp only [List.any_eq_true, beq_iff_eq]
+  simp only [names, List.mem_map] at this
+  exact this
+
+/-- Full statement the partial theorem above falls short of:
+      ∀ ops, (uRun vs Unified.empty ops).pending = [] →
+        catalogueSound (Ref.run Ref.empty ops) (uRun vs Unified.empty ops).catalogue = true.
+    Pinned tree (DESIGN §4 #11): endpoint 0 lists [x], the unification runs, it then lists [y], the
+    unification runs: nothing is outstanding, the catalogue still says endpoint 0 has x. -/
+theorem unified_sound_pinned_witness :
+    let ops := [Op.reg 0 [mk "x"], .run 0, .reg 0 [mk "y"], .run 0]
+    (uRun allPinned Unified.empty ops).pending = [] ∧
+    catalogueSound (Ref.run Ref.empty ops) (uRun allPinned Unified.empty ops).catalogue = false := by decide
+
+/-- Pinned tree, same class (#11): `RemoveEndpoint` never reaches the unifier's store. Endpoints 0 and 1 list
+    x, endpoint 0 is removed, endpoint 1 reports x again: endpoint 0 is back in the catalogue. -/
+theorem unified_sound_pinned_witness_remove :
+    let ops := [Op.reg 0 [mk "x"], .run 0, .reg 1 [mk "x"], .run 0, .remove 0, .reg 1 [mk "x"], .run 0]
+    (uRun allPinned Unified.empty ops).pending = [] ∧
+    catalogueSound (Ref.run Ref.empty ops) (uRun allPinned Unified.empty ops).catalogue = false := by decide
+
+/-- Pinned tree (DESIGN §4 #12), even with the stale-source fix in: two listings of one endpoint whose
+    unifications run in the other order, and a unification that runs after its endpoint was removed. -/
+theorem unified_order_pinned_witness :
+    let vs : Variants := { validateFirst := .fixed, dropStale := .fixed, inOrder := .pinned }
+    let ops := [Op.reg 0 [mk "x"], .reg 0 [mk "y"], .run 1, .run 0]
+    let ops' := [Op.reg 0 [mk "x"], .remove 0, .run 0]
+    (uRun vs Unified.empty ops).pending = [] ∧
+    catalogueSound (Ref.run Ref.empty ops) (uRun vs Unified.empty ops).catalogue = false ∧
+    catalogueSound (Ref.run Ref.empty ops') (uRun vs Unified.empty ops').catalogue = false := by decide
+
+/-! ### Non-vacuity -/
+
+-- the same histories on the fully fixed tree end with a catalogue that is sound and complete
+example :
+    let ops := [Op.reg 0 [mk "x"], .run 0, .reg 0 [mk "y"], .run 0]
+    catalogueSound (Ref.run Ref.empty ops) (uRun allFixed Unified.empty ops).catalogue = true ∧
+    catalogueComplete [0] (Ref.run Ref.empty ops) (uRun allFixed Unified.empty ops).catalogue = true := by decide
+example :
+    let ops := [Op.reg 0 [mk "x"], .reg 0 [mk "y"], .run 1, .run 0]
+    (uRun allFixed Unified.empty ops).pending = [] ∧
+    catalogueSound (Ref.run Ref.empty ops) (uRun allFixed Unified.empty ops).catalogue = true ∧
+    catalogueComplete [0] (Ref.run Ref.empty ops) (uRun allFixed Unified.empty ops).catalogue = true := by decide
+example :
+    let ops := [Op.reg 0 [mk "x"], .run 0, .reg 1 [mk "x"], .run 0, .remove 0, .reg 1 [mk "x"], .run 0]
+    catalogueSound (Ref.run Ref.empty ops) (uRun allFixed Unified.empty ops).catalogue = true := by decide
+-- a growing history: the partial theorem applies, and the catalogue is not empty
+example : growing Ref.empty [Op.reg 0 [mk "x" "d1"], .run 0, .reg 1 [mk "y" "d1"], .run 0, .reg 0 [mk "x" "d1", mk "z"], .run 0] := by
+  simp [growing, growingOp, Op.rejected, Ref.step, Ref.set, listed, names, Ref.empty, mk]
+example : ((uRun allPinned Unified.empty [Op.reg 0 [mk "x" "d1"], .run 0, .reg 1 [mk "y" "d1"], .run 0]).catalogue.map
+    (fun o => (o.id, o.aliases, o.sources.map (fun s => (s.url, s.native))))) = [("x", ["x", "y"], [(0, "x"), (1, "y")])] := by decide
+-- base registry: replace-with-fewer then drop-last-holder
+example :
+    let b := baseRun allPinned Base.empty [Op.reg 0 [mk "x", mk "y"], .reg 1 [mk "x"], .reg 0 [mk "y"], .remove 1]
+    b.endpointsFor "x" = [] ∧ b.endpointsFor "y" = [0] ∧ b.stats.totalModels = 1 ∧ b.stats.totalEndpoints = 1 := by decide
+example : Glob.matchesGlob "Llama3:8B".toList "llama*".toList = true ∧ Glob.matchesGlob "x".toList "*a*".toList = false ∧
+    Glob.validPattern "a*b".toList = false ∧ Glob.validPattern "*a*".toList = true := by decide
+example : noDC "llama3:8b".toList = true ∧ noDC "a::a".toList = false ∧ noDC "a:".toList = false := by decide
 
 end Olla.Props.C10
